@@ -95,7 +95,10 @@ def run(ctx):
             elif x.get("status") != "ok" or x.get("outputs") != jc.EXPECTED["Work"]:
                 ctx.violation(f"resubmission after a crash at '{spec['crash_point']}' did not return the complete correct result",
                               case=case, expected=jc.EXPECTED["Work"], observed=o["outs"])
-        if later and o["bodies"][1] < 1:
+        # a complete result that existed before (init root = ok) and was never cleared by the crashed re-running
+        # process is legitimately served: it was produced by a finished body (the donor run)
+        preexisting = spec["init"].get("root") == "ok" and not any(e["a"] == "ClearDir" for e in o["ev"])
+        if later and o["bodies"][1] < 1 and not preexisting:
             ctx.violation("a result was served although no task body ever finished", case=case, observed=o["bodies"])
         traces.append({"tid": tid, "init": jc.spec_init(spec["init"]), "ev": o["ev"]})
     verdicts = jc.validate_traces(ctx, traces, "ideal")
